@@ -522,6 +522,9 @@ class Parser:
             self.pop_token()
             self.expect_number()
             token = self.pop_token()
+            if not (0 < token.value <= VERSION):
+                raise InvalidNumericValue(token, f"Expected 0 < value <= {VERSION}!")
+
             version = int(token.value)
             if not (0 < version <= VERSION):
                 raise InvalidNumericValue(token, f"Expected 0 < value <= {VERSION}!")
